@@ -334,9 +334,14 @@ fn setup_disk_handle(path: &Path, tasks: Receiver<Task>) -> heed::Result<Env> {
     txn.commit()?;
 
     let env2 = env.clone();
-    let _worker = std::thread::spawn(move || run_tasks(env, tasks, keyspace_list));
     #[cfg(datacake_verif)]
-    crate::verif::register_worker(env2.path().to_path_buf(), _worker);
+    {
+        let worker = std::thread::spawn(move || run_tasks(env, tasks, keyspace_list));
+        crate::verif::register_worker(env2.path().to_path_buf(), worker);
+        return Ok(env2);
+    }
+    #[cfg(not(datacake_verif))]
+    std::thread::spawn(move || run_tasks(env, tasks, keyspace_list));
 
     Ok(env2)
 }
